@@ -205,6 +205,33 @@ def search(ctx, N, complex_too=True):
             if not (np.array_equal(o1[:, 0], out[:, 0]) and np.array_equal(e1[:, 0], np.asarray(err)[:, 0])):
                 if ctx.violation('columns', 'Richardson(%s): column 0 of a %d-column call differs from the 1-column call' % (key, ncols), rep):
                     return
+    # sequences of whole numbers given with an INTEGER dtype (and as float32): the same outputs as for the float64 array with the same
+    # elements -- the extrapolation is real arithmetic whatever the container's element type
+    for k in range(max(N // 20, 6)):
+        step, order, T = int(rng.integers(1, 3)), int(rng.integers(1, 3)), int(rng.integers(0, 3))
+        length, ncols = int(rng.integers(max(T, 1) + 1, 7)), int(rng.integers(1, 4))
+        hs = 2.0 ** np.arange(length - 1, -1, -1)
+        Ls = rng.integers(-9, 10, size=ncols)
+        As = rng.integers(-3, 4, size=(ncols, max(T, 1)))
+        seq = np.array([[float(Ls[c] + sum(As[c][j] * hs[i] ** (order + step * j) for j in range(T))) for c in range(ncols)] for i in range(length)])
+        steps = np.repeat(hs[:, None], ncols, axis=1)
+        R = Richardson(step_ratio=2.0, step=step, order=order, num_terms=T)
+        out, err, _ = R(seq.copy(), steps.copy())
+        for dt in (np.int64, np.int32, np.float32):
+            try:
+                out2, err2, _ = Richardson(step_ratio=2.0, step=step, order=order, num_terms=T)(seq.astype(dt), steps.copy())
+            except Exception as ex:   # noqa
+                if ctx.violation('dtype-raises', 'Richardson(2.0, step=%d, order=%d, num_terms=%d) raises %r for a sequence of dtype %s' % (step, order, T, ex, np.dtype(dt).name), {'sequence': seq.tolist(), 'dtype': np.dtype(dt).name}):
+                    return
+                continue
+            ctx.count(1, ('sequence-dtype', np.dtype(dt).name))
+            tol = 1e-9 * (1.0 + float(np.max(np.abs(seq))))
+            if np.shape(out2) != np.shape(out) or not np.all(np.abs(np.asarray(out2, dtype=float) - out) <= tol):
+                if ctx.violation('sequence-dtype', 'Richardson(step_ratio=2.0, step=%d, order=%d, num_terms=%d): a sequence of whole numbers given with dtype %s is extrapolated to %r, the float64 array with the same elements to %r (limit %r)' % (
+                        step, order, T, np.dtype(dt).name, np.asarray(out2).tolist(), out.tolist(), Ls.tolist()),
+                        {'step_ratio': 2.0, 'step': step, 'order': order, 'num_terms': T, 'sequence': seq.tolist(), 'steps': steps.tolist(), 'dtype': np.dtype(dt).name, 'L': Ls.tolist(),
+                         'how': 'Richardson(step_ratio, step, order, num_terms)(np.array(sequence, dtype=dtype), np.array(steps))'}):
+                    return
     if complex_too:
         for k in range(N // 4):
             r, th = float(rng.uniform(1.5, 8)), float(rng.uniform(0.1, 1.2))
